@@ -77,7 +77,7 @@ def structural_tags():
     return out
 
 
-CANARY_NAMES = ['vf_cold_pkg.sub.mod.f', 'vf_cold_pkg.sub.f', 'vf_cold_pkg.f', 'vf_cold_pkg.sub.mod', 'xml.dom.minidom.parse', 'wsgiref.simple_server.make_server', 'vf_canary.f', 'vf_canary.g', 'vf_canary.K', 'vf_canary.L', 'vf_canary.M', 'vf_canary.VALUE', 'vf_canary.INSTANCE', 'vf_canary.ITER', 'vf_canary.LISTITER', 'vf_canary.GEN', 'vf_canary.K.append', 'datetime.datetime.now', 'vf_canary.INSTANCE.append', 'vf_canary.missing',
+CANARY_NAMES = ['vf_warm_pkg.cold_sub', 'vf_warm_pkg.cold_sub.f', 'vf_warm_pkg.VALUE', 'json.tool', 'vf_cold_pkg.sub.mod.f', 'vf_cold_pkg.sub.f', 'vf_cold_pkg.f', 'vf_cold_pkg.sub.mod', 'xml.dom.minidom.parse', 'wsgiref.simple_server.make_server', 'vf_canary.f', 'vf_canary.g', 'vf_canary.K', 'vf_canary.L', 'vf_canary.M', 'vf_canary.VALUE', 'vf_canary.INSTANCE', 'vf_canary.ITER', 'vf_canary.LISTITER', 'vf_canary.GEN', 'vf_canary.K.append', 'datetime.datetime.now', 'vf_canary.INSTANCE.append', 'vf_canary.missing',
                 'vf_canary', 'vf_canary_cold.f', 'vf_canary_cold', 'wave.open', 'wave', 'nosuchmodule.x', 'nosuchmodule', '', '.', 'eval', 'exec', 'open', 'len',
                 'builtins.eval', 'os.system', 'os.getcwd', 'os.path.join', 'subprocess.Popen', 'sys.exit', 'time.time', 'dict', 'list', 'type', 'object',
                 'builtins.__import__', 'yaml.load', 'yaml.UnsafeLoader', 'vf_canary.K.append', 'vf_canary..f', 'vf_canary.f.', '__main__.x', 'datetime.datetime',
@@ -91,7 +91,7 @@ def module_names():
         m = sys.modules.get(mn)
         if m is None or not all(p.isidentifier() for p in mn.split('.')):
             continue
-        if mn.startswith(('vf.', 'vf_canary', 'vf_cold')) or mn in ('vf', '__main__', '__mp_main__'):
+        if mn.startswith(('vf.', 'vf_canary', 'vf_cold', 'vf_warm')) or mn in ('vf', '__main__', '__mp_main__'):
             continue
         try:
             names = dir(m)
